@@ -6,7 +6,7 @@ From Coq Require Import List String NArith ZArith Bool.
 From SV Require Import Bin.LE Bin.Struct Bin.StructProofs Bin.RLE Bin.RLEProofs Bin.FindInsert Bin.FindInsertProofs
   Fmt.BspFormatsSpec Fmt.BspFormatsProofs Fmt.BspVisRow Fmt.BspVisRowProofs Fmt.BspTexStrings Fmt.BspTexStringsProofs
   Fmt.BspRecords Fmt.BspRecordsProofs Fmt.VmfText Fmt.BspEntLump Fmt.BspEntLumpProofs Fmt.BspDedup Fmt.BspDedupProofs Fmt.BspFlagSplit Fmt.BspFlagSplitProofs
-  Fmt.BspOverlayRec Fmt.BspOverlayRecProofs Fmt.BspWorklist Fmt.BspWorklistProofs Fmt.BspPhys Fmt.BspPhysProofs Bin.BspDeferred Bin.BspDeferredProofs Fmt.BspSpriteDict Fmt.BspSpriteDictProofs Fmt.BspSaveOrder Fmt.BspSaveOrderProofs.
+  Fmt.BspOverlayRec Fmt.BspOverlayRecProofs Fmt.BspWorklist Fmt.BspWorklistProofs Fmt.BspPhys Fmt.BspPhysProofs Bin.BspDeferred Bin.BspDeferredProofs Fmt.BspSpriteDict Fmt.BspSpriteDictProofs Fmt.BspSaveOrder Fmt.BspSaveOrderProofs Fmt.BspPropVersion Fmt.BspPropVersionProofs.
 Import ListNotations.
 
 (** * struct: unpack inverts pack for every format and every fitting record *)
@@ -413,3 +413,45 @@ Theorem c11_save_backward_reference_refuted :
   let '(T', R', ok) := msave refs_back 5 [0; 1]%nat T0 (fun _ => []) in
   ok = true /\ items (T' 0%nat) = [9%N] /\ R' 0%nat = [] /\ R' 1%nat = [(5%N, [(0, 0)]%nat)].
 Proof. exact msave_backward_refuted. Qed.
+
+(** * Round 5: the static-prop format is chosen by the READER of an earlier file and used by the WRITER of the next *)
+(** Generic over the tables generated from [_lmp_read_props] / [_lmp_write_props] (for every BSP version, header number,
+    record size and format named beforehand: what the reader of an empty lump records, what the reader of a lump with records
+    records / decodes with, what the writer writes in).  A fresh object reads a file whose static-prop lump is EMPTY; props are
+    assigned; the object saves (the header number stays, the records have the size of the format written in); a fresh object
+    reads that file.  If the tables pass [pv_from_empty_ok]: whatever format [st] the first reader settled on, the writer
+    writes in a format [w] and the second reader records [w], decodes with [w], and runs the same field ladder. *)
+Theorem c11_prop_version_from_empty_lump : forall c, pv_from_empty_ok c = true ->
+  forall bv h, In bv (c_bsp c) -> In h pv_hdrs ->
+  forall st, read_empty c bv h 0%N = Some (Some st) ->
+  exists r w lw sz, write_props c st = Some (Some (r, w, lw)) /\ size_of c w = Some sz /\
+                    read_sized c bv h sz 0%N = Some (Some (w, w, lw)).
+Proof. exact from_empty_stable. Qed.
+(** ... and there is no third outcome: the empty lump is rejected with an error, or a format is recorded. *)
+Theorem c11_prop_version_empty_lump_total : forall c, pv_from_empty_ok c = true ->
+  forall bv h, In bv (c_bsp c) -> In h pv_hdrs ->
+  read_empty c bv h 0%N = Some None \/ exists st, read_empty c bv h 0%N = Some (Some st).
+Proof. exact from_empty_total. Qed.
+(** The caller names the format [m]: it is the format written; a fresh reader settles on a format [d] with the header number
+    and the record size of [m], records what it decodes with and - if [d] is [m] - runs the writer's ladder; named to the reader,
+    [m] is believed.  (Two members may share the pair: the file cannot say which it holds, see [c11_prop_version_detected].) *)
+Theorem c11_prop_version_named : forall c, pv_named_ok c = true ->
+  forall bv m, In bv (c_bsp c) -> (1 <= m <= N.of_nat (List.length (c_members c)))%N ->
+  exists lw h sz d ld,
+    write_props c m = Some (Some (m, m, lw)) /\ hdr_of c m = Some h /\ size_of c m = Some sz /\
+    read_sized c bv h sz 0%N = Some (Some (d, d, ld)) /\ (d = m -> ld = lw) /\ hdr_of c d = Some h /\ size_of c d = Some sz /\
+    read_sized c bv h sz m = Some (Some (m, m, lw)).
+Proof. exact named_detected. Qed.
+(** When no other member has the (header number, record size) of [m], the fresh reader finds [m] itself. *)
+Theorem c11_prop_version_detected : forall c, pv_named_ok c = true ->
+  forall bv m, In bv (c_bsp c) -> (1 <= m <= N.of_nat (List.length (c_members c)))%N -> unique_pair c m = true ->
+  exists lw h sz, write_props c m = Some (Some (m, m, lw)) /\ hdr_of c m = Some h /\ size_of c m = Some sz /\
+                  read_sized c bv h sz 0%N = Some (Some (m, m, lw)).
+Proof. exact named_detected_unique. Qed.
+(** The guess for an empty lump stops at the FIRST member with the header number while files with records of that size are
+    read as the second: written in format 1 (ladder 11), decoded as format 2 (ladder 7).  The last-match guess passes. *)
+Theorem c11_prop_version_first_match_refuted :
+  hist_from_empty_ok pv_first_match_cfg 20 11 = false /\
+  hist_from_empty pv_first_match_cfg 20 11 = Some (Some (1, 11, Some (2, 2, 7)))%N /\
+  hist_from_empty_ok pv_last_match_cfg 20 11 = true.
+Proof. exact first_match_refuted. Qed.
